@@ -21,7 +21,7 @@ from simcore.rng import Rng
 REC_NAMES = ["foo", "foo2", "foo-bar", "fo", "foo-bar2", "Foo", "m1", "m2", "m3", "m4", "m5", "m6", "m7", "m8"]
 MODES = ["r", "r+", "a", "w", "w-", "x"]
 
-LIFE_OPS = ("open", "close", "commit", "create_patch", "discard", "merge", "check_history", "apply_tail", "open_prefix")
+LIFE_OPS = ("open", "close", "commit", "create_patch", "discard", "merge", "check_history", "apply_tail", "open_prefix", "merge_moved_manifest")
 
 
 EXTRA_OPS = {}  # op kind -> handler(world, op); filled by other engines (sites)
@@ -977,6 +977,49 @@ class World:
             m.close()
         return "ok"
 
+    def op_merge_moved_manifest(self, op):
+        """The manifest of the newest container lives elsewhere and is named explicitly with
+        manifest_file= (documented keyword); merging must carry the *loaded* manifest over."""
+        from pathlib import Path
+
+        r = self.rec(op["rec"])
+        t = self.rec(op["target"])
+        if r.is_open or r.cls != "mf" or not r.exists or not all(c["committed"] for c in r.disk) or t.exists or t.idx == r.idx:
+            return "skip"
+        canonical = os.path.join(self.sut, r.disk[-1]["file"] + "mf.json")
+        if not os.path.exists(canonical):
+            return "skip"
+        moved = os.path.join(self.tmp, f"moved-manifest-{self.steps}.json")
+        h = r.protected.pop(canonical, None)
+        if self.monitor and h is not None:
+            self.sh.unprotect(canonical)
+        shutil.move(canonical, moved)
+        self.probe("merge_with_manifest_elsewhere")
+        try:
+            try:
+                obj = self.IH5MFRecord(self.path(r), "r", manifest_file=Path(moved))
+            except Exception as e:
+                raise Violation("C03", "open-mode", f"open with an explicit manifest_file= (manifest stored elsewhere) raised {type(e).__name__}: {e}", shape="manifest_file")
+            r.obj, r.ro, r.scls = obj, True, "mf"
+            try:
+                if r.ref is None:
+                    import h5py
+
+                    r.ref = h5py.File(self.ref_path(r), "r+")
+                out = self.op_merge({"rec": r.idx, "target": t.idx})
+            finally:
+                try:
+                    obj.close()
+                finally:
+                    r.obj = None
+        finally:
+            shutil.move(moved, canonical)
+            if h is not None:
+                r.protected[canonical] = h
+                if self.monitor:
+                    self.sh.protect(canonical)
+        return out
+
     def check_merge_descendants(self, r):
         """After the source committed another patch: [merged] + later patches == source."""
         for t in self.recs.values():
@@ -1219,6 +1262,8 @@ class World:
             out = self.op_open_prefix(op)
         elif k == "xcopy":
             out = self.op_xcopy(op)
+        elif k == "merge_moved_manifest":
+            out = self.op_merge_moved_manifest(op)
         elif k in EXTRA_OPS:
             out = EXTRA_OPS[k](self, op)
         else:
@@ -1409,6 +1454,11 @@ class IH5StoreEngine:
             s = st[i]
             roll = g.random()
             if not s["open"]:
+                if profile == "merge" and s["exists"] and s["committed_last"] and cfg["classes"][str(i)] == "mf" and merge_targets and g.random() < 0.25:
+                    t = merge_targets.pop(0)
+                    cfg["classes"][str(t)] = "mf"
+                    emit({"op": "merge_moved_manifest", "rec": i, "target": t})
+                    continue
                 if profile in ("restart", "immutable") and s["exists"] and s["committed_last"] and s["n"] >= 2 and g.random() < 0.3:
                     emit({"op": "open_prefix", "rec": i, "mode": g.choice(["r", "r", "r+", "a"]), "j": g.randrange(4), "perm": g.randrange(100)})
                     continue
